@@ -4,11 +4,11 @@ package main
 
 import (
 	"fmt"
-	"regexp"
 	"go/ast"
 	"go/token"
 	"go/types"
 	"math/big"
+	"regexp"
 	"strings"
 )
 
@@ -1354,6 +1354,26 @@ func (u *Unit) applyContract(st *State, e *ast.CallExpr, callee *types.Func, ct 
 		g := env.evalBool(r.Expr)
 		u.emit(st, "pre", fmt.Sprintf("pre(%s)#%d[%s]", calleeKey(callee), i, u.exprTextShort(e)), "precondition of "+calleeKey(callee)+": "+r.Text, e.Pos(), g)
 		st.assume(g)
+	}
+	// call-site obligations of the CALLER's contract (`fncall <callee-expr>[#k] requires ...` for a contracted callee):
+	// additional conditions this caller promises to establish at this call (arg0.., recv, the caller's own names)
+	if sub, key := u.fncallFor(e); sub != nil {
+		snames := map[string]Term{} // the caller's scope: callee parameter names are NOT bound (use arg0.. / recv)
+		for i := range ca.args {
+			snames[fmt.Sprintf("arg%d", i)] = ca.args[i]
+		}
+		if ca.recv != nil {
+			snames["recv"] = *ca.recv
+		}
+		senv := &SpecEnv{u: u, st: st, old: pre, names: snames, cs: u.cs, pkg: u.pkg.Types, own: true, scopePos: e.Pos(), loopInv: true}
+		for i, r := range sub.Requires {
+			g := senv.evalBool(r.Expr)
+			u.emit(st, "pre", fmt.Sprintf("pre(site %s)#%d", key, i), "call-site condition of this function's contract at "+key+": "+r.Text, e.Pos(), g)
+			st.assume(g)
+		}
+		if len(sub.Ensures) > 0 || len(sub.Modifies) > 0 {
+			u.specErrors = append(u.specErrors, fmt.Sprintf("fncall %s: the callee has a contract of its own; only `requires` (call-site conditions) may be added", key))
+		}
 	}
 	for i, r := range ct.Panics {
 		g := not(env.evalBool(r.Expr))
